@@ -247,6 +247,11 @@ class Weaver:
                 ed.replace(c["span"][0], c["span"][1], f"KVX_CLOSURE_{cs.get('cut_name', k)}", "R5")   # cut_name: a placeholder that does not depend on the closure's ordinal
                 continue
             need_block = bool(pre_lets) or (cs is not None)
+            if cs is not None and cs.get("ptypes"):
+                # W3: untyped simple parameters get the type the sidecar states (rustc checks it against the inferred one)
+                for j, p in enumerate(c["inputs"]):
+                    if j < len(cs["ptypes"]) and cs["ptypes"][j] and p["simple"] is not None and not p["typed"]:
+                        ed.insert(p["span"][1], ": " + cs["ptypes"][j], "W3")
             if cs is not None:
                 ann = []
                 ins_at = c["or2"][1]
@@ -495,16 +500,26 @@ class Weaver:
                 else:
                     h = dict(h, before=cands[0])
                 anchor = cands[0]
-            n = text.count(anchor)
-            if n == 0 or (n > 1 and occ is None):
-                raise Undecided(f"W5 hint anchor {anchor!r} occurs {n} times in {spec['path']}")
-            pos = -1
-            for _ in range((occ or 0) + 1):
-                pos = text.find(anchor, pos + 1)
-                if pos < 0:
-                    raise Undecided(f"W5 hint anchor {anchor!r} occurrence {occ} missing in {spec['path']}")
-            if h.get("after"):
-                pos += len(anchor)
+            if h.get("regex"):
+                # the anchor is a regular expression (for statements whose operands the contract, not the hint, must pin down)
+                ms = list(re.finditer(anchor, text))
+                if h.get("optional") and len(ms) <= (occ or 0):
+                    continue
+                if not ms or (len(ms) > 1 and occ is None) or len(ms) <= (occ or 0):
+                    raise Undecided(f"W5 hint anchor /{anchor}/ occurs {len(ms)} times in {spec['path']}")
+                m = ms[occ or 0]
+                pos = m.end() if h.get("after") else m.start()
+            else:
+                n = text.count(anchor)
+                if n == 0 or (n > 1 and occ is None):
+                    raise Undecided(f"W5 hint anchor {anchor!r} occurs {n} times in {spec['path']}")
+                pos = -1
+                for _ in range((occ or 0) + 1):
+                    pos = text.find(anchor, pos + 1)
+                    if pos < 0:
+                        raise Undecided(f"W5 hint anchor {anchor!r} occurrence {occ} missing in {spec['path']}")
+                if h.get("after"):
+                    pos += len(anchor)
             htext = h["text"]
             if h.get("tag") == "auxiliary" or ("props" in h and self.prop not in h["props"]):
                 htext = "\n".join(l + " /*@aux-hint*/" for l in htext.split("\n"))
